@@ -472,3 +472,14 @@ impl<'a> VacantEntry<'a> {
         Key { index, stream_id }
     }
 }
+
+#[cfg(feature = "verif")]
+impl Store {
+    pub(super) fn verif_sizes(&self) -> (usize, usize) {
+        (self.slab.len(), self.ids.len())
+    }
+
+    pub(super) fn verif_streams(&self) -> impl Iterator<Item = &Stream> {
+        self.ids.values().map(move |i| &self.slab[i.0 as usize])
+    }
+}
